@@ -4,8 +4,8 @@
 
    Standing assumptions, explicit in every statement that needs them:
      wf      : the row count the metadata reports for a row group is the number of rows its chunks
-               hold (established by the writer: C01/C17; the model REFUSES a read where it fails -
-               C06_count_mismatch_refused - instead of mis-placing rows)
+               hold (established by the writer: C01/C17; the MODEL refuses a read where it fails -
+               C06_count_mismatch_refused; see the remark there about the real reader)
      deqb/neqb reflect equality (ThriftObject.__eq__ is structural; str.__eq__)
      deser (ser l) = Some l : pickling a handle goes through the thrift serialiser (C10's round trip)
    Everything is quantified over ALL datasets (any number and sizes of row groups incl. empty ones),
@@ -44,6 +44,10 @@ Theorem C06_state_after_k_groups :
 Proof. exact fill_prefix_state. Qed.
 Print Assumptions C06_state_after_k_groups.
 
+(* in the MODEL a read succeeds only if every reported count equals the number of rows delivered (numpy refuses the
+   assignment into a view of another length).  The real reader refuses when the view is too SHORT; into a view that is too
+   LONG it writes the rows it has and leaves the rest of the view unwritten - that case is excluded by the hypothesis
+   nrows d = |rows d|, which the harness checks on every dataset it generates. *)
 Theorem C06_count_mismatch_refused :
   forall (D R : Type) (rows : D -> list R) (nrows : D -> nat) (rgs : list D) out,
     read_rows rows nrows rgs = Some out -> forall d, In d rgs -> nrows d = length (rows d).
